@@ -3,6 +3,7 @@ package checks
 import (
 	"fmt"
 	"math/big"
+	"strings"
 	"time"
 
 	"cosmossdk.io/math"
@@ -356,7 +357,14 @@ func c14History(c *vc.Ctx, idx int) {
 	}
 	defer h.close()
 	mon := newC14Mon(h)
-	h.crashFn = func(cr *world.ErrCrash) { c.Inconclusive("FinalizeBlock failed (reported under C13): %v", cr) }
+	h.crashFn = func(cr *world.ErrCrash) {
+		if e := cr.Err.Error(); strings.Contains(e, "in power ranking") && (strings.Contains(e, "DOWNGRADE") || strings.Contains(e, "TOMBSTONED")) {
+			// the module itself says so: a jailed or tombstoned validator sits in the power ranking, i.e. it was given voting power
+			c.Violation("a punished validator was ranked with voting power: "+errClass(e), cr.Error(), h.replay())
+			return
+		}
+		c.Inconclusive("FinalizeBlock failed (reported under C13): %v", cr)
+	}
 	directed := idx%4 == 3 && !rotation
 	w0 := h.cfg.W
 	if rotation {
@@ -407,6 +415,28 @@ func c14History(c *vc.Ctx, idx int) {
 		if directed {
 			if j, ok := mon.jailed[1]; ok {
 				next := h.ch.Height + 1
+				// while it is jailed: a partial unlock that keeps every threshold, then a weight raise of that token - the jailed
+				// validator must stay without voting power
+				if next == j+4 {
+					h.extra = func(o *blockOps) {
+						rec := &unlockRec{ID: h.nextUID, Val: 1, Token: tokBTC, Requested: pow10(18)}
+						h.nextUID++
+						o.unlocks = append(o.unlocks, rec)
+						o.Reqs.Locking.Unlocks = append(o.Reqs.Locking.Unlocks, &goattypes.UnlockRequest{Id: rec.ID, Validator: h.vals[1].Addr, Recipient: common.BigToAddress(big.NewInt(int64(0x1000 + rec.ID))), Token: tokBTC, Amount: pow10(18)})
+						o.Desc = append(o.Desc, "unlock v1 btc 1e18 while jailed (keeps the threshold)")
+					}
+				}
+				if next == j+7 {
+					h.extra = func(o *blockOps) {
+						wt := uint64(1)
+						if t := h.token(h.post, tokBTC); t != nil {
+							wt = t.Weight + 1
+						}
+						o.Reqs.Locking.UpdateWeights = append(o.Reqs.Locking.UpdateWeights, &goattypes.UpdateTokenWeightRequest{Token: tokBTC, Weight: wt})
+						o.Desc = append(o.Desc, fmt.Sprintf("weight btc=%d while v1 is jailed", wt))
+						c.Count("weight_raises_while_a_validator_is_jailed_after_an_unlock", 1)
+					}
+				}
 				if next >= j+17 && next <= j+23 {
 					h.extra = func(o *blockOps) {
 						lr := &goattypes.LockRequest{Validator: h.vals[1].Addr, Token: tokBTC, Amount: pow10(17)}
@@ -434,7 +464,7 @@ func init() {
 	vc.Register(&vc.Check{
 		ID: "C14", Title: "Downtime jails and slashes once; double-signing tombstones for good", Level: "exploration",
 		Rule: "one case = one history (80/200 blocks) with window 6..10, maximum missed 2..4, jail 60 s (= 20 blocks, so locks land before, exactly at and after the jail end), evidence limits 4 blocks / 15 s with height-age and time-age drawn independently, " +
-			"absence streaks of 1..5 blocks across window boundaries, runs of nil precommits (present in the round, not absent: they must not count), and lock/unlock/weight requests aimed at jailed and tombstoned validators; a reference model written from the statement (miss counters per active validator, slash = floor(fraction*holding) or everything if that is 0, evidence age filter, tombstone) " +
+			"absence streaks of 1..5 blocks across window boundaries, runs of nil precommits (present in the round, not absent: they must not count), a partial unlock and a weight raise while a validator is jailed, and lock/unlock/weight requests aimed at jailed and tombstoned validators; a reference model written from the statement (miss counters per active validator, slash = floor(fraction*holding) or everything if that is 0, evidence age filter, tombstone) " +
 			"is stepped with the same vote records and evidence and compared after every commit: who is jailed (never with fewer than the maximum misses in the last window; always when the maximum is reached inside one window from activation), jail time, growth of the slashed totals exactly equal to one slash per offence, tombstoned validators never regain status, power or membership, jailed validators are released only by a lock after the jail time with all thresholds met. " +
 			"Non-trivial = every committed block; distinct = (jails, evidence items, absentees in the block) and evidence age classes.",
 		Assume: []string{"'active' is read from the chain's own status field (its correctness is C13's subject)", "the proposing validator is never absent"},
